@@ -425,10 +425,21 @@ def p0_form(ctx):
             'DVE': 'velocity', 'DVD': 'velocity', 'DROLL': 'level', 'DPITCH': 'level',
             'DHEADING': 'azimuth'}
     seen = {}
+    # the output-space covariance: middle factor of the congruence stored into the ins block
+    clo0 = Closure(f)
+    ppva = None
+    for st in f.node.body:
+        if isinstance(st, ast.Assign) and isinstance(st.targets[0], ast.Subscript) and \
+                isinstance(st.value, ast.BinOp) and isinstance(st.value.op, ast.MatMult) and \
+                'transform_to_internal' in clo0.text(st.value, st, depth=2):
+            v = st.value
+            if isinstance(v.left, ast.BinOp) and isinstance(v.left.right, ast.Name):
+                ppva = v.left.right.id
     for st in f.node.body:
         if isinstance(st, ast.Assign) and isinstance(st.targets[0], ast.Subscript) and \
                 isinstance(st.targets[0].slice, ast.Tuple) and \
-                len(st.targets[0].slice.elts) == 2:
+                len(st.targets[0].slice.elts) == 2 and \
+                (ppva is None or norm_text(st.targets[0].value) == ppva):
             a, b = st.targets[0].slice.elts
             if isinstance(a, ast.Attribute) and a.attr in want:
                 v = st.value
@@ -463,7 +474,7 @@ def p0_form(ctx):
             ok = len(fs) == 3 and norm_text(fs[2]) in (norm_text(fs[0]) + '.transpose()',
                                                        norm_text(fs[0]) + '.T') and \
                 'transform_to_internal(%s)' % f.params[0] in clo.text(fs[0], st, depth=2) and \
-                norm_text(fs[1]) == 'P_pva'
+                norm_text(fs[1]) == (ppva or 'P_pva')
             ctx.ob('P0-FORM', ok, None, 'P[ins, ins] = T @ P_pva @ T^T', f=f, node=st,
                    key='congruence',
                    why='initial INS covariance is `%s`, expected T @ P_pva @ T.transpose() with '
@@ -474,13 +485,39 @@ def p0_form(ctx):
 
 
 def rec_order(ctx):
-    ctx.rule('REC-ORDER', 'state and covariance are propagated with the same (Phi, Qd); H is '
-             'embedded in the ins block of a zero row block')
+    ctx.rule('REC-ORDER', 'state and covariance are propagated with the same (Phi, Qd) (normal-form '
+             'identity P <- Phi P Phi^T + Qd, x <- Phi x); H is embedded in the ins block of a '
+             'zero matrix with one column per joint state')
+    from .kal import NCAlg
     sb = ctx.cache.get('state-blocks') or layout_state(ctx)
+
+    def nc(A, node, env):
+        if isinstance(node, ast.Name):
+            return env.setdefault(node.id, A.atom(node.id))
+        if isinstance(node, ast.BinOp) and isinstance(node.op, ast.MatMult):
+            return A.mul(nc(A, node.left, env), nc(A, node.right, env))
+        if isinstance(node, ast.BinOp) and isinstance(node.op, ast.Add):
+            return A.add(nc(A, node.left, env), nc(A, node.right, env))
+        if isinstance(node, ast.Attribute) and node.attr == 'T':
+            return A.T(nc(A, node.value, env))
+        if isinstance(node, ast.Call) and isinstance(node.func, ast.Attribute) and \
+                node.func.attr == 'transpose' and not node.args:
+            return A.T(nc(A, node.func.value, env))
+        if isinstance(node, ast.Call) and isinstance(node.func, ast.Attribute) and \
+                node.func.attr == 'dot' and len(node.args) == 1:
+            return A.mul(nc(A, node.func.value, env), nc(A, node.args[0], env))
+        return None
     for fq in PUBLIC:
         f = ctx.repo.function(fq)
-        loop = [s for s in f.node.body if isinstance(s, ast.While)][0]
+        loop = [s_ for s_ in f.node.body if isinstance(s_, ast.While)][0]
+        pre = f.node.body[:f.node.body.index(loop)]
         blocks = sb.get(fq, {})
+        cov = None
+        for st in pre:
+            if isinstance(st, ast.Assign) and isinstance(st.targets[0], ast.Name) and \
+                    '_initialize_covariance(' in norm_text(st.value):
+                cov = st.targets[0].id
+        ctx.need(cov is not None, '%s: covariance variable not identified' % fq)
         phi = None
         for st in loop.body:
             if isinstance(st, ast.Assign) and isinstance(st.targets[0], ast.Tuple) and \
@@ -488,37 +525,77 @@ def rec_order(ctx):
                 phi = [norm_text(e) for e in st.targets[0].elts]
                 i_phi = loop.body.index(st)
         ctx.need(phi is not None and len(phi) == 2, '%s: (Phi, Qd) assignment not found' % fq)
-        P_upd = [st for st in loop.body if isinstance(st, ast.Assign) and
-                 norm_text(st.targets[0]) == 'P' and loop.body.index(st) > i_phi]
-        okP = len(P_upd) == 1 and norm_text(P_upd[0].value) in (
-            '%s @ P @ %s.transpose() + %s' % (phi[0], phi[0], phi[1]),
-            '%s @ P @ %s.T + %s' % (phi[0], phi[0], phi[1]))
-        ctx.ob('REC-ORDER', okP, None, 'P <- Phi P Phi^T + Qd', f=f,
-               node=(P_upd[0] if P_upd else loop), key='P-prop',
-               why='covariance propagation is `%s`' % (norm_text(P_upd[0].value) if P_upd
-                                                        else 'missing'))
+        A = NCAlg(symmetric=(cov, phi[1]))
+        env = {}
+        upd = [st for st in loop.body if isinstance(st, ast.Assign) and
+               norm_text(st.targets[0]) == cov and loop.body.index(st) > i_phi]
+        okP = False
+        if len(upd) == 1:
+            v = nc(A, upd[0].value, env)
+            want = A.add(A.mul(A.mul(A.atom(phi[0]), A.atom(cov)), A.T(A.atom(phi[0]))),
+                         A.atom(phi[1]))
+            okP = v is not None and A.eq(v, want)
+        ctx.ob('REC-ORDER', okP, None, '%s <- Phi %s Phi^T + Qd' % (cov, cov), f=f,
+               node=(upd[0] if upd else loop), key='P-prop',
+               why='covariance propagation is `%s`, expected %s @ %s @ %s^T + %s'
+                   % (norm_text(upd[0].value) if upd else 'missing', phi[0], cov, phi[0], phi[1]))
+        # the error state: first argument of kalman.correct
+        cor = [n for n in ast.walk(loop) if isinstance(n, ast.Call) and
+               f.module.resolve(n.func, f.local_names()) == 'pyins.kalman.correct']
+        ctx.need(len(cor) == 1 and len(cor[0].args) == 5, '%s: kalman.correct call not found' % fq)
+        xs, Ps, zs, Hf, Rs = [norm_text(a) for a in cor[0].args]
+        ctx.ob('REC-ORDER', Ps == cov, None, 'correction uses the propagated covariance', f=f,
+               node=cor[0], key='cov-arg', why='kalman.correct is called with covariance `%s`' % Ps)
         if fq.endswith('feedforward_filter'):
-            x_upd = [st for st in loop.body if isinstance(st, ast.Assign) and
-                     norm_text(st.targets[0]) == 'x' and loop.body.index(st) > i_phi]
-            okx = len(x_upd) == 1 and norm_text(x_upd[0].value) == '%s @ x' % phi[0]
-            ctx.ob('REC-ORDER', okx, None, 'x <- Phi x with the same Phi', f=f,
-                   node=(x_upd[0] if x_upd else loop), key='x-prop',
-                   why='error-state propagation is `%s`' % (norm_text(x_upd[0].value)
-                                                            if x_upd else 'missing'))
+            xu = [st for st in loop.body if isinstance(st, ast.Assign) and
+                  norm_text(st.targets[0]) == xs and loop.body.index(st) > i_phi]
+            okx = False
+            if len(xu) == 1:
+                v = nc(A, xu[0].value, env)
+                okx = v is not None and A.eq(v, A.mul(A.atom(phi[0]), A.atom(xs)))
+            ctx.ob('REC-ORDER', okx, None, '%s <- Phi %s with the same Phi' % (xs, xs), f=f,
+                   node=(xu[0] if xu else loop), key='x-prop',
+                   why='error-state propagation is `%s`' % (norm_text(xu[0].value) if xu
+                                                            else 'missing'))
         # H embedding
+        unp = None
         for st in ast.walk(loop):
-            if isinstance(st, ast.Assign) and isinstance(st.targets[0], ast.Subscript) and \
-                    norm_text(st.targets[0].value) == 'H_full':
-                sl = st.targets[0].slice
-                idx = [norm_text(e) for e in sl.elts] if isinstance(sl, ast.Tuple) else []
-                ok = len(idx) == 2 and idx[0] == ':' and blocks.get(idx[1]) == 'ins' and \
-                    norm_text(st.value) == 'H'
-                ctx.ob('REC-ORDER', ok, None, 'H_full[:, ins] = H', f=f, node=st,
-                       why='measurement matrix is embedded as `%s`' % norm_text(st))
-            if isinstance(st, ast.Assign) and norm_text(st.targets[0]) == 'H_full':
-                ok = norm_text(st.value) == 'np.zeros((len(z), n_states))'
-                ctx.ob('REC-ORDER', ok, None, 'H_full starts as zeros(len(z), n_states)', f=f,
-                       node=st, why='H_full is allocated as `%s`' % norm_text(st.value))
+            if isinstance(st, ast.Assign) and isinstance(st.targets[0], ast.Tuple) and \
+                    len(st.targets[0].elts) == 3 and isinstance(st.value, ast.Name):
+                unp = [norm_text(e) for e in st.targets[0].elts]
+        ctx.need(unp is not None, '%s: (z, H, R) unpacking not found' % fq)
+        stores = [st for st in ast.walk(loop) if isinstance(st, ast.Assign) and
+                  isinstance(st.targets[0], ast.Subscript) and
+                  norm_text(st.targets[0].value) == Hf]
+        allocs = [st for st in ast.walk(loop) if isinstance(st, ast.Assign) and
+                  norm_text(st.targets[0]) == Hf]
+        ok = len(stores) == 1
+        if ok:
+            sl = stores[0].targets[0].slice
+            idx = [norm_text(e) for e in sl.elts] if isinstance(sl, ast.Tuple) else []
+            ok = len(idx) == 2 and idx[0] == ':' and blocks.get(idx[1]) == 'ins' and \
+                norm_text(stores[0].value) == unp[1]
+        ctx.ob('REC-ORDER', ok, None, '%s[:, ins] = H' % Hf, f=f,
+               node=(stores[0] if stores else cor[0]), key='H-embed',
+               why='measurement matrix is embedded as `%s`'
+                   % (norm_text(stores[0]) if stores else 'nothing'))
+        ok = False
+        if len(allocs) == 1 and isinstance(allocs[0].value, ast.Call) and \
+                f.module.resolve(allocs[0].value.func, f.local_names()) == 'numpy.zeros':
+            shp = allocs[0].value.args[0]
+            if isinstance(shp, ast.Tuple) and len(shp.elts) == 2:
+                clo = Closure(f)
+                c1 = clo.text(shp.elts[1], allocs[0], depth=2)
+                ok = norm_text(shp.elts[0]) == 'len(%s)' % unp[0] and \
+                    c1 in ('len(%s)' % cov, 'len(_initialize_covariance', ) or \
+                    (norm_text(shp.elts[0]) == 'len(%s)' % unp[0] and c1.startswith('len('))
+        ctx.ob('REC-ORDER', ok, None, '%s starts as zeros(len(z), number of joint states)' % Hf,
+               f=f, node=(allocs[0] if allocs else cor[0]), key='H-alloc',
+               why='embedded measurement matrix is allocated as `%s`'
+                   % (norm_text(allocs[0].value) if allocs else 'nothing'))
+        ctx.ob('REC-ORDER', [zs, Rs] == [unp[0], unp[2]], None,
+               'correction receives the residual and noise of the same measurement', f=f,
+               node=cor[0], key='zr', why='kalman.correct receives (%s, %s)' % (zs, Rs))
 
 
 def est_rules(ctx):
